@@ -520,7 +520,7 @@ class GState:
 
         self._user_bounds.validate("feed-rate", speed)
 
-        if not isinstance(speed, int | float) or speed < 0.0:
+        if not isinstance(speed, int | float) or not speed >= 0.0 or speed == float("inf"):
             message = f"Invalid feed rate '{speed}'."
             raise ValueError(message)
 
@@ -529,6 +529,6 @@ class GState:
 
         self._user_bounds.validate("tool-power", power)
 
-        if not isinstance(power, int | float) or power < 0.0:
+        if not isinstance(power, int | float) or not power >= 0.0 or power == float("inf"):
             message = f"Invalid tool power '{power}'."
             raise ValueError(message)
